@@ -397,7 +397,7 @@ theorem solid_entropy_raises_without_Sfus (d : Data) (ok : d.Ok) (T P : ℝ) :
 
 /-- the data of liquid-reference "water" with constant heat capacities (used by the non-vacuity examples) -/
 def witnessData : Data :=
-  { Tref := 298.15, Pref := 101325, Href := 0, S0 := 70, Tm := 273.15, Tb := 373.15, Hfus := 6010, Sfus := 0, Hvap := 40650 }
+  { Tref := 298.15, Pref := 101325, Href := 0, S0 := 70, Tm := 273.15, Tb := 373.15, Hfus := 6010, Sfus := 6010 / 273.15, Hvap := 40650 }
 
 theorem witnessData_ok : witnessData.Ok := by
   constructor <;> norm_num [witnessData]
